@@ -631,6 +631,7 @@ func (ab *dsAddrBook) setAddrs(p peer.ID, addrs []ma.Multiaddr, ttl time.Duratio
 			}
 		}
 	}
+	var entries []*pb.AddrBookRecord_AddrEntry
 	// evictNearestUnconnected drops the unconnected entry from pr.Addrs with
 	// the soonest expiry. Returns false when every remaining entry is held by
 	// a live connection, in which case the caller must drop the new addr.
@@ -646,6 +647,13 @@ func (ab *dsAddrBook) setAddrs(p peer.ID, addrs []ma.Multiaddr, ttl time.Duratio
 				soonest = a.Expiry
 			}
 		}
+		// addrs inserted earlier in this call compete too; they all expire
+		// at newExp.
+		if len(entries) > 0 && (victim == -1 || newExp < soonest) {
+			delete(addrsMap, string(entries[0].Addr))
+			entries = entries[1:]
+			return true
+		}
 		if victim == -1 {
 			return false
 		}
@@ -654,7 +662,6 @@ func (ab *dsAddrBook) setAddrs(p peer.ID, addrs []ma.Multiaddr, ttl time.Duratio
 		return true
 	}
 
-	var entries []*pb.AddrBookRecord_AddrEntry
 	for _, incoming := range addrs {
 		existingEntry := updateExisting(incoming)
 
